@@ -182,7 +182,8 @@ func runPar2(c *Case) []string {
 		return r(&cc)
 	}
 	refA, refB := run(argsA), run(argsB)
-	const g, rounds = 4, 8
+	// every goroutine makes its call several times in a row, so that the calls really overlap
+	const g, rounds, reps = 4, 8, 10
 	outs := make([][]string, g*rounds)
 	for rd := 0; rd < rounds; rd++ {
 		start := make(chan struct{})
@@ -192,10 +193,15 @@ func runPar2(c *Case) []string {
 			go func(k int) {
 				defer wg.Done()
 				<-start
-				if k%2 == 0 {
-					outs[k] = run(argsA)
-				} else {
-					outs[k] = run(argsB)
+				args, ref := argsA, refA
+				if k%2 == 1 {
+					args, ref = argsB, refB
+				}
+				for j := 0; j < reps; j++ {
+					outs[k] = run(args)
+					if strings.Join(outs[k], " ") != strings.Join(ref, " ") {
+						return
+					}
 				}
 			}(rd*g + i)
 		}
